@@ -26,6 +26,18 @@ UNIVERSE = [
     ("{}", "o0"), ('{"a":1}', "oa1"), ('{"a":1.0}', "oa1"), ('{ "a" : 1e0 }', "oa1"), ('{"a":2}', "oa2"), ('{"b":1}', "ob1"),
     ('{"a":[1,{"b":null}]}', "ox"), ('{"a":[1.0,{"b":null}]}', "ox"), ('{"a":1,"b":2}', "oab"),
     ('[{"a":1}]', "aoa1"), ('[{"a":1.0}]', "aoa1"), ('"[1]"', "s[1]"),
+    # unequal values that feed the same byte stream to a hasher that writes no lengths (object members moved one level up,
+    # elements moved between neighbouring arrays): only equality can tell them apart
+    ('{"a":{"b":1}}', "tw1"), ('{"a":{},"b":1}', "tw2"), ('{"a":{"b":1,"c":2}}', "tw3"), ('{"a":{"b":1},"c":2}', "tw4"),
+    ('{"a":{"b":1.0}}', "tw1"), ('[[1],[]]', "tw5"), ('[[],[1]]', "tw6"), ('[[1,2]]', "tw7"), ('[[1],[2]]', "tw8"), ('[["a"],"b"]', "tw9"),
+    ('[["a","b"]]', "tw10"), ('["ab"]', "tw11"), ('["a","b"]', "tw12"),
+    # whole numbers near the top of the exactly-representable range in integer, decimal and exponent spelling (|n| < 2^53)
+    ("1000000000000000", "n1e15"), ("1e15", "n1e15"), ("1000000000000000.0", "n1e15"), ("100e13", "n1e15"),
+    ("2000000000000000", "n2e15"), ("2.0E+15", "n2e15"), ("9007199254740991", "nmax"), ("9007199254740991.0", "nmax"),
+    ("-1000000000000000", "n-1e15"), ("-1E15", "n-1e15"),
+    # neighbouring doubles: different values, not duplicates
+    ("0.3", "n0.3"), ("0.30000000000000004", "n0.3+"), ("0.1", "n0.1"), ("0.10000000000000002", "n0.1+"), ("3.3", "n3.3"),
+    ("3.3000000000000003", "n3.3+"), ("0.1e0", "n0.1"), ("30e-2", "n0.3"),
 ]
 
 
